@@ -33,7 +33,7 @@ NumVals == {0, 1, 2, 6}
 StrVals == {"a", "x"}
 \* member descriptors (the name is given by the position)
 Kinds == [k : {"auto"}] \cup [k : {"num"}, v : NumVals] \cup [k : {"str"}, s : StrVals]
-         \cup [k : {"ref"}, m : 1..(MaxMembers - 1), add : {0, 1}] \cup [k : {"comp"}, v : {3}]
+         \cup [k : {"ref"}, m : 1..(MaxMembers - 1), op : {"id", "plus1", "neg", "not", "shl"}] \cup [k : {"comp"}, v : {3}]
 RECURSIVE SeqsOfLen(_, _)
 SeqsOfLen(S, n) == IF n = 0 THEN {<<>>} ELSE { Append(s, x) : s \in SeqsOfLen(S, n - 1), x \in S }
 \* ---- enum state machine: obj is a sequence of <<key, value>> pairs in write order (later pairs overwrite earlier ones)
@@ -41,28 +41,46 @@ Put(obj, key, val) == Append(SelectSeq(obj, LAMBDA p : p[1] # key), <<key, val>>
 NumKey(v) == "#" \o ToString(v)       \* numeric keys are kept apart from name keys by a marker
 \* well-formedness as TypeScript enforces it: auto needs a numeric predecessor (or to be first in the first block);
 \* a reference names an earlier NUMERIC member
-RECURSIVE Run(_, _, _, _, _, _)
+\* Dev = TRUE computes what the implementation is KNOWN to do instead (the three open findings of C04, modelled as named
+\* deviations so that a failing declaration is excused only if the implementation shows exactly this behaviour):
+\*   nonliteral   - in a block with a member whose initialiser is not a literal, such members get no reverse entry and do not
+\*                  advance the auto counter (the block is built by assignments; literal members behave as the emit)
+\*   dup-first    - in a block of literal members only (built as one table) the reverse entry of a value keeps the FIRST name
+\*   second-block - a second `enum E` block starts from an empty object
+\* dev is "emit" (the specification), "table" (deviating, all-literal block) or "assign" (deviating, block with a non-literal)
+PutRev(obj, v, name, dev) == IF dev = "table" /\ \E p \in 1..Len(obj) : obj[p][1] = NumKey(v) THEN obj ELSE Put(obj, NumKey(v), [s |-> name])
+UnOp(op, v) == CASE op = "id" -> v [] op = "plus1" -> v + 1 [] op = "neg" -> 0 - v [] op = "not" -> 0 - v - 1 [] op = "shl" -> 2 * v
+RECURSIVE Run(_, _, _, _, _, _, _)
 \* ms: remaining members; i: index of the next name; obj; last: last numeric value or -1 (none);
 \* vals / nums: value and "is numeric" of every member so far
-Run(ms, i, obj, last, vals, nums) ==
+Run(ms, i, obj, last, vals, nums, dev) ==
   IF ms = <<>> THEN [ok |-> TRUE, obj |-> obj, vals |-> vals, nums |-> nums]
   ELSE LET m == Head(ms)  name == Names[i] IN
     CASE m.k = "auto" ->
-           (IF last = -1 /\ i > 1 THEN [ok |-> FALSE]
+           (IF last = -1 /\ i > 1 /\ dev = "emit" THEN [ok |-> FALSE]
             ELSE LET v == last + 1 IN
-                 Run(Tail(ms), i + 1, Put(Put(obj, name, [n |-> v]), NumKey(v), [s |-> name]), v, Append(vals, v), Append(nums, TRUE)))
-      [] m.k \in {"num", "comp"} -> Run(Tail(ms), i + 1, Put(Put(obj, name, [n |-> m.v]), NumKey(m.v), [s |-> name]), m.v, Append(vals, m.v), Append(nums, TRUE))
-      [] m.k = "str" -> Run(Tail(ms), i + 1, Put(obj, name, [s |-> m.s]), -1, Append(vals, 0), Append(nums, FALSE))
+                 Run(Tail(ms), i + 1, PutRev(Put(obj, name, [n |-> v]), v, name, dev), v, Append(vals, v), Append(nums, TRUE), dev))
+      [] m.k = "num" -> Run(Tail(ms), i + 1, PutRev(Put(obj, name, [n |-> m.v]), m.v, name, dev), m.v, Append(vals, m.v), Append(nums, TRUE), dev)
+      [] m.k = "comp" ->
+           IF dev # "emit" THEN Run(Tail(ms), i + 1, Put(obj, name, [n |-> m.v]), last, Append(vals, m.v), Append(nums, TRUE), dev)
+           ELSE Run(Tail(ms), i + 1, PutRev(Put(obj, name, [n |-> m.v]), m.v, name, dev), m.v, Append(vals, m.v), Append(nums, TRUE), dev)
+      [] m.k = "str" -> Run(Tail(ms), i + 1, Put(obj, name, [s |-> m.s]), -1, Append(vals, 0), Append(nums, FALSE), dev)
       [] m.k = "ref" ->
            (IF m.m >= i THEN [ok |-> FALSE] ELSE IF ~nums[m.m] THEN [ok |-> FALSE]
-            ELSE LET v == vals[m.m] + m.add IN
-                 Run(Tail(ms), i + 1, Put(Put(obj, name, [n |-> v]), NumKey(v), [s |-> name]), v, Append(vals, v), Append(nums, TRUE)))
+            ELSE IF m.op = "neg" /\ vals[m.m] = 0 THEN [ok |-> FALSE]          \* -0: outside the integer model
+            ELSE LET v == UnOp(m.op, vals[m.m]) IN
+                 IF dev # "emit" THEN Run(Tail(ms), i + 1, Put(obj, name, [n |-> v]), last, Append(vals, v), Append(nums, TRUE), dev)
+                 ELSE Run(Tail(ms), i + 1, PutRev(Put(obj, name, [n |-> v]), v, name, dev), v, Append(vals, v), Append(nums, TRUE), dev))
 \* two blocks: the second continues on the same object; its first member must have an initializer
 EnumDecls == { <<b1, b2>> : b1 \in UNION { SeqsOfLen(Kinds, n) : n \in 1..MaxMembers },
                             b2 \in {<<>>} \cup (IF MaxBlocks >= 2 THEN { <<x>> : x \in { k \in Kinds : k.k \in {"num", "str"} } } ELSE {}) }
-EnumResult(d) == LET r1 == Run(d[1], 1, <<>>, -1, <<>>, <<>>) IN
+AllLit(b) == \A p \in 1..Len(b) : b[p].k \in {"auto", "num", "str"}
+DevOf(b) == IF AllLit(b) THEN "table" ELSE "assign"
+EnumResultD(d, dev) == LET r1 == Run(d[1], 1, <<>>, -1, <<>>, <<>>, IF dev THEN DevOf(d[1]) ELSE "emit") IN
                  IF ~r1.ok THEN r1
-                 ELSE IF d[2] = <<>> THEN r1 ELSE Run(d[2], Len(d[1]) + 1, r1.obj, -1, r1.vals, r1.nums)
+                 ELSE IF d[2] = <<>> THEN r1
+                 ELSE Run(d[2], Len(d[1]) + 1, IF dev THEN <<>> ELSE r1.obj, -1, r1.vals, r1.nums, IF dev THEN DevOf(d[2]) ELSE "emit")
+EnumResult(d) == EnumResultD(d, FALSE)
 \* ---- parameter properties: parameters = sequence of [mod : "none"|"public"|"private"|"readonly", dflt : 0 | value]
 ParamDecls == UNION { SeqsOfLen([mod : {"none", "public", "private", "readonly"}, dflt : {0, 7}], n) : n \in 0..3 }
 \* own keys (in order) and values of `new C(1, 2, 3)` resp. `new C()` for defaults
@@ -77,7 +95,8 @@ Spec == Init /\ [][Next]_vars
 Emit == ~done =>
   (IF decl.f = "enum" THEN
       LET r == EnumResult(decl.d) IN
-      r.ok => PrintT(<<"T", ToJson([f |-> "enum", b1 |-> decl.d[1], b2 |-> decl.d[2],
-                                    pairs |-> [i \in 1..Len(r.obj) |-> [key |-> r.obj[i][1], val |-> r.obj[i][2]]]])>>)
+      (r.ok /\ EnumResultD(decl.d, TRUE).ok) => PrintT(<<"T", ToJson([f |-> "enum", b1 |-> decl.d[1], b2 |-> decl.d[2],
+                                    pairs |-> [i \in 1..Len(r.obj) |-> [key |-> r.obj[i][1], val |-> r.obj[i][2]]],
+                                    devpairs |-> LET q == EnumResultD(decl.d, TRUE).obj IN [i \in 1..Len(q) |-> [key |-> q[i][1], val |-> q[i][2]]]])>>)
    ELSE PrintT(<<"T", ToJson([f |-> "params", ps |-> decl.ps, ext |-> decl.ext, keys |-> ParamKeys(decl.ps)])>>))
 ====
